@@ -323,6 +323,9 @@ FLF = "jax2onnx/plugins/jax/lax/fori_loop.py"
 mutant("c06-fori-trip-count-ignores-lower", "C06", FLF, "        trip_count = int(np.asarray(upper).item()) - int(np.asarray(lower).item())", "        trip_count = int(np.asarray(upper).item())", expect="R-C06e")
 mutant("c06-fori-index-offset-dropped", "C06", FLF, "    if lower != 0:\n        lower_const = _scalar_i64(body_ctx, int(lower), \"fori_lower\")", "    if lower != 0 and False:\n        lower_const = _scalar_i64(body_ctx, int(lower), \"fori_lower\")", expect="R-C06e")
 mutant("c06-fori-bind-lower-zero", "C06", FLF, "            lower=int(lower),\n        )\n        return tree_util.tree_unflatten(treedef, flat_result)", "            lower=0,\n        )\n        return tree_util.tree_unflatten(treedef, flat_result)", expect="R-C06e")
+mutant("c06-fori-index-offset-only-when-narrowing", "C06", FLF, "    if lower != 0:\n        lower_const = _scalar_i64(body_ctx, int(lower), \"fori_lower\")", "    if iter_enum != ir.DataType.INT64 and lower != 0:\n        lower_const = _scalar_i64(body_ctx, int(lower), \"fori_lower\")", expect="R-C06e")
+mutant("c19-fori-lower-dropped-when-index-is-int64", "C19", FLF, "    if lower != 0:\n        lower_const = _scalar_i64(body_ctx, int(lower), \"fori_lower\")", "    if iter_enum != ir.DataType.INT64 and lower != 0:\n        lower_const = _scalar_i64(body_ctx, int(lower), \"fori_lower\")", expect="R-C19f")
+benign("c06-benign-fori-lower-compare-flipped", "C06", FLF, "    if lower != 0:\n        lower_const = _scalar_i64(body_ctx, int(lower), \"fori_lower\")", "    if 0 != lower:\n        lower_const = _scalar_i64(body_ctx, int(lower), \"fori_lower\")")
 benign("c06-benign-fori-lower-truthiness", "C06", FLF, "    if lower != 0:\n        lower_const = _scalar_i64(body_ctx, int(lower), \"fori_lower\")", "    if lower:\n        lower_const = _scalar_i64(body_ctx, int(lower), \"fori_lower\")")
 benign("c06-benign-fori-trip-count-names", "C06", FLF, "        trip_count = int(np.asarray(upper).item()) - int(np.asarray(lower).item())", "        hi = int(np.asarray(upper).item())\n        lo = int(np.asarray(lower).item())\n        trip_count = hi - lo")
 multi("c06-scan-trip-count-from-scatter-extent", "C06", "mutant", [("jax2onnx/plugins/jax/lax/scan.py", "        if trip_count_int is not None:\n            trip_count_val = _scalar_i64(ctx, trip_count_int, \"scan_trip_count\")\n        else:\n            first_seq_val = ctx.get_value_for_var(seq_invars[0])\n            shape_val = _shape_of(ctx, first_seq_val, \"scan_seq_shape\")\n            trip_count_val = _gather_int_scalar(ctx, shape_val, 0, \"scan_trip_dynamic\")", "        if scatter_static_extent is None:\n            if trip_count_int is not None:\n                trip_count_val = _scalar_i64(ctx, trip_count_int, \"scan_trip_count\")\n            else:\n                first_seq_val = ctx.get_value_for_var(seq_invars[0])\n                shape_val = _shape_of(ctx, first_seq_val, \"scan_seq_shape\")\n                trip_count_val = _gather_int_scalar(ctx, shape_val, 0, \"scan_trip_dynamic\")")], expect="trip-count")
